@@ -1,3 +1,121 @@
-(* Props/C16.v -- property theorems only *)
+(* Props/C16.v -- property theorems only.
+   Model: Mem/Backing.v (lib/memory/backing.rs after the repairs of notes/C16.md), specification:
+   Mem/BackingSpec.v, proofs: Mem/BackingProofs.v.  P is the permission payload (any type).
+
+   wf 0 s        : representation invariant (keys increasing, sections non-empty, consecutive sections
+                   do not overlap, every exclusive end below 2^64)
+   abs s         : the partial map address -> (byte, permissions) a section list denotes
+   region_ok a d : the written region does not wrap the address space (0 <= a, a + |d| < 2^64)
+   run_writes    : a sequence of set_memory calls; run_ops: set_memory / set32 histories
+   write_all     : last-writer-wins map of a sequence of region writes (specification) *)
 From Coq Require Import ZArith List.
-From Falcon Require Import Base.Res IL.Const Mem.Backing Mem.BackingSpec.
+From Falcon Require Import Base.Res IL.Const Mem.Backing Mem.BackingSpec Mem.BackingProofs Mem.BackingRegions.
+Import ListNotations.
+Local Open Scope Z_scope.
+
+(* [U] after every history of region writes (not wrapping) and 32-bit writes that did not panic,
+   the stored sections are sorted, pairwise non-overlapping and non-empty *)
+Theorem sections_disjoint : forall (P : Type) (be : bool) (ops : list (@hop P)) (s : sections P),
+  Forall hop_ok ops -> run_ops be [] ops = Ok s ->
+  wf 0 s /\ ForallOrdPairs no_overlap s /\ Forall (fun y => 0 < len (fst (snd y))) s.
+Proof. exact @sections_disjoint_thm. Qed.
+Print Assumptions sections_disjoint.
+
+(* [U] one region write of any overlap shape (left, right, inside, covering, disjoint, adjacent, empty):
+   never panics, keeps the invariant, and denotes `overwrite` *)
+Theorem abs_set_memory_step : forall (P : Type) (s : sections P) (a : Z) (d : list Z) (p : P),
+  wf 0 s -> 0 <= a -> a + len d < U64 ->
+  exists s', set_memory s a d p = Ok s' /\ wf 0 s' /\ forall x, abs s' x = overwrite (abs s) a d p x.
+Proof. exact @set_memory_spec. Qed.
+Print Assumptions abs_set_memory_step.
+
+(* [U] every sequence of region writes from the empty memory denotes the last-writer-wins map *)
+Theorem abs_set_memory : forall (P : Type) (ws : list (Z * list Z * P)),
+  Forall (fun w => region_ok (fst (fst w)) (snd (fst w))) ws ->
+  exists s, run_writes [] ws = Ok s /\ wf 0 s /\ forall x, abs s x = write_all empty_map ws x.
+Proof. exact @abs_set_memory_thm. Qed.
+Print Assumptions abs_set_memory.
+
+(* [U] byte and permission reads are the pointwise reads of the denoted map (never Panic) *)
+Theorem get8_spec : forall (P : Type) (s : sections P) (x : Z),
+  wf 0 s -> get8 s x = Ok (read8 (abs s) x).
+Proof. exact @get8_spec. Qed.
+Print Assumptions get8_spec.
+
+Theorem permissions_spec : forall (P : Type) (s : sections P) (x : Z),
+  wf 0 s -> permissions s x = Ok (tag_at (abs s) x).
+Proof. exact @permissions_spec. Qed.
+Print Assumptions permissions_spec.
+
+(* [U] arbitrary-width reads: the bytes at x .. x + bits/8 - 1 of the denoted map -- whichever sections
+   hold them -- assembled in the memory's endianness; None exactly when one of them is unmapped; never Panic *)
+Theorem get_spec : forall (P : Type) (be : bool) (s : sections P) (x bits : Z),
+  wf 0 s -> bits mod 8 = 0 -> 0 < bits -> get be s x bits = Ok (read be (abs s) x bits).
+Proof. exact @get_spec. Qed.
+Print Assumptions get_spec.
+
+(* [U] 32-bit reads: inside one stored section the four bytes in the memory's endianness, otherwise None *)
+Theorem get32_spec : forall (P : Type) (be : bool) (s : sections P) (x : Z), wf 0 s ->
+  match find_sec s x with
+  | Some (a, (d, _)) =>
+      if x + 4 <=? a + len d
+      then exists v, read32 be (abs s) x = Some v /\ get32 be s x = Ok (Some v)
+      else get32 be s x = Ok None
+  | None => get32 be s x = Ok None
+  end.
+Proof. exact @get32_spec_thm. Qed.
+Print Assumptions get32_spec.
+
+(* [U] 32-bit writes: inside one stored section exactly the four bytes change (write32 keeps every other
+   cell and every permission), the layout (addresses, lengths, permissions) is unchanged; a mapped start
+   with fewer than four bytes left is refused, an unmapped start panics (as written in the code) *)
+Theorem set32_spec : forall (P : Type) (be : bool) (s : sections P) (x v : Z), wf 0 s ->
+  match find_sec s x with
+  | Some (a, (d, _)) =>
+      if x + 4 <=? a + len d
+      then exists s', set32 be s x v = Ok s' /\ wf 0 s' /\
+                      (forall y, abs s' y = write32 be (abs s) x v y) /\
+                      map (fun kv => (fst kv, len (fst (snd kv)), snd (snd kv))) s' =
+                      map (fun kv => (fst kv, len (fst (snd kv)), snd (snd kv))) s
+      else set32 be s x v = Err ECustom
+  | None => set32 be s x v = Panic
+  end.
+Proof. exact @set32_spec_thm. Qed.
+Print Assumptions set32_spec.
+
+(* [U] "region" as the property means it -- the visible part of one region write: run the history with every
+   write tagged by its index (the code never inspects the payload; erasing the tags, pmap fst, gives the real
+   run).  Whenever four consecutive addresses show the same region write, get32 returns their bytes in the
+   memory's endianness and set32 replaces exactly them (write32 keeps every other cell, permission and writer) *)
+Theorem region_access : forall (P : Type) (be : bool) (ops : list (@hop P)) (s : sections (P * nat)) (x : Z),
+  Forall hop_ok ops -> run_ops be [] (tag_ops 0 ops) = Ok s -> same_write (abs s) x ->
+  run_ops be [] ops = Ok (pmap fst s) /\
+  (exists v, read32 be (abs s) x = Some v /\ get32 be (pmap fst s) x = Ok (Some v)) /\
+  (forall v, exists s', set32 be s x v = Ok s' /\ set32 be (pmap fst s) x v = Ok (pmap fst s') /\
+                        wf 0 s' /\ forall y, abs s' y = write32 be (abs s) x v y).
+Proof. exact @region_access_thm. Qed.
+Print Assumptions region_access.
+
+(* find_sec s x is the stored section covering x *)
+Theorem find_sec_is_cover : forall (P : Type) (s : sections P) (x : Z), wf 0 s ->
+  match find_sec s x with
+  | Some (a, (d, p)) => In (a, (d, p)) s /\ a <= x < a + len d
+  | None => forall a d p, In (a, (d, p)) s -> ~ (a <= x < a + len d)
+  end.
+Proof. exact @find_sec_spec. Qed.
+Print Assumptions find_sec_is_cover.
+
+(* [U] an address no region of the history covers is unmapped *)
+Theorem never_covered_unmapped : forall (P : Type) (ws : list (Z * list Z * P)) (x : Z),
+  Forall (fun w => region_ok (fst (fst w)) (snd (fst w))) ws ->
+  Forall (fun w => ~ covers w x) ws ->
+  exists s, run_writes [] ws = Ok s /\ get8 s x = Ok None /\ permissions s x = Ok None.
+Proof. exact @never_covered_thm. Qed.
+Print Assumptions never_covered_unmapped.
+
+(* the hypotheses are satisfiable and the statements are not vacuous: a nested write splits a section *)
+Example split_example :
+  run_writes [] [(16, [1; 2; 3; 4], 5); (18, [9], 7)] = Ok [(16, ([1; 2], 5)); (18, ([9], 7)); (19, ([4], 5))]
+  /\ get true [(16, ([1; 2], 5)); (18, ([9], 7)); (19, ([4], 5))] 17 24 = Ok (Some (mkc 24 133380))
+  /\ get false [(16, ([1; 2], 5)); (18, ([9], 7)); (19, ([4], 5))] 17 32 = Ok None.
+Proof. vm_compute. repeat split; reflexivity. Qed.
